@@ -188,8 +188,11 @@ def _regex_cases():
 
 def generate(tier, rng):
     n = 24 if tier == 'quick' else 400
-    for _ in range(n):
-        yield _cart(rng, tier)
+    for i in range(n):
+        c = _cart(rng, tier)
+        if i % 3 == 1:
+            c['via_file'] = 1
+        yield c
     # carts whose regions all derive from the library's own empty sections (see c16.default_variants)
     from props import c16
     vs = {s: list(c16.default_variants(rng, s)) for s in ORDER}
@@ -310,7 +313,28 @@ def run_impl(case):
         obs = {'chunks': [lib.hx(c) for c in chunks], 'before': before, 'raised': None}
         try:
             f1 = io.BytesIO()
-            P8Formatter.to_file(g, f1)
+            if case.get('via_file'):
+                # through the file-name API, over an EXISTING .p8 that holds another cart WITH a label picture: what is
+                # written must be this cart (a cart without a label must not inherit the destination's)
+                import os
+                import tempfile
+                from pico8.game import file as gfile
+                d = tempfile.mkdtemp(prefix='c03-', dir=os.path.join(lib.VERIF, 'work') if os.path.isdir(os.path.join(lib.VERIF, 'work')) else None)
+                try:
+                    path = os.path.join(d, 'cart.p8')
+                    old = Game.make_empty_game(version=8)
+                    old.label = Gfx(data=bytes((i * 7 + 3) & 255 for i in range(8192)), version=8)
+                    old.lua = Lua.from_lines([b'old=1\n'], version=8)
+                    with open(path, 'wb') as fh:
+                        P8Formatter.to_file(old, fh)
+                    gfile.to_file(g, path)
+                    with open(path, 'rb') as fh:
+                        f1.write(fh.read())
+                finally:
+                    import shutil
+                    shutil.rmtree(d, ignore_errors=True)
+            else:
+                P8Formatter.to_file(g, f1)
             obs['f1'] = lib.hx(f1.getvalue())
         except Exception as e:  # noqa
             obs['raised'] = 'write:' + lib.exc_name(e)
